@@ -25,6 +25,12 @@
             (7 key iv ((name keylen) ...) seed len)        one secret given to many names in ONE process, in
                                                            this creation order: NewCrypt(name, key[:keylen], iv);
                                                            every instance must be what it would be alone
+            (8 bs mul key iv encbuf decbuf seed1 len1 seed2 len2 ((k off n spare doff) ...))
+                                                           toy block, messages as windows buf1[off:off+n] (slice
+                                                           capacity off+n+spare) of a patterned buffer: k = 0/1
+                                                           Encrypt/Decrypt in place, 2/3 into buf2[doff:doff+n]
+            (9 name key iv seed1 len1 ((k off n spare) ...))   the same in place with a factory-made cipher
+            (10 name key iv seed nmsgs)                    one instance, Encrypt and Decrypt on two goroutines
    observed = (panicked (out ...))        for 0
               (keystream enc dec)         for 1   (dec = Decrypt(enc) on a second instance)
               (enc dec)                   for 2
@@ -34,7 +40,10 @@
               (panicked out)              for 4
               (ctor_panicked run_panicked enc dec ((cipher n ref) ...))   for 5
               (panickedA encA panickedB encB)                             for 6
-              (((ctor_panicked run_panicked enc dec) ...) ((cipher n ref) ...))   for 7 *)
+              (((ctor_panicked run_panicked enc dec) ...) ((cipher n ref) ...))   for 7
+              (panicked (written_buffer_after_op ...) final_buf1 final_buf2)      for 8
+              (panicked ((buffer_after_op ref) ...))   for 9 (ref = stock CFB of the window before the op)
+              (panicked bad_encrypts bad_decrypts first_bad)                      for 10 *)
 From Coq Require Import ZArith NArith List Bool Arith.
 From FV Require Import Lib.Sx C16.Model.
 Import ListNotations.
@@ -201,6 +210,67 @@ Fixpoint check_family (key iv m : list N) (t : list sx) (entries results : list 
   | _, _ => VBad
   end.
 
+(* kinds 8, 9: messages as windows of a larger buffer.  The property on the implementation's
+   buffers: every byte outside the window of the op is unchanged (8) and the window is CFB of
+   what it held (1 / 4); the model (bstep) must produce the same buffers (14). *)
+Definition outside_eq (off n : nat) (a b : list N) : bool :=
+  (length a =? length b) && nlist_eqb (firstn off a) (firstn off b) &&
+  nlist_eqb (skipn (off + n) a) (skipn (off + n) b).
+
+Fixpoint bcheck (bs : nat) (E : list N -> list N) (iv : list N) (s : bstate) (i1 i2 : list N)
+  (ops obs : list sx) (fin1 fin2 : list N) : verdict :=
+  match ops, obs with
+  | [], [] =>
+      vjoin (check_that (nlist_eqb i1 fin1 && nlist_eqb i2 fin2) (VPropFail 8))
+            (check_that (nlist_eqb (mem1 s) fin1 && nlist_eqb (mem2 s) fin2) (VMismatch 14))
+  | SList [SInt k; SInt off; SInt n; SInt _; SInt doff] :: ops', SBytes o :: obs' =>
+      let off := Z.to_nat off in let n := Z.to_nat n in let doff := Z.to_nat doff in
+      let inplace := Z.ltb k 2 in
+      let isenc := Z.eqb k 0 || Z.eqb k 2 in
+      let bo := if Z.eqb k 0 then BEnc off n else if Z.eqb k 1 then BDec off n
+                else if Z.eqb k 2 then BEncTo off n doff else BDecTo off n doff in
+      match bstep bs E iv s bo with
+      | None => VMismatch 4
+      | Some s' =>
+          let prevw := rd off n i1 in
+          let ivb := firstn bs iv in
+          let target := if inplace then i1 else i2 in
+          let woff := if inplace then off else doff in
+          let vprop :=
+            vjoin (check_that (outside_eq woff n target o) (VPropFail 8))
+                  (if isenc then check_that (nlist_eqb (rd woff n o) (cfb_enc bs E ivb prevw)) (VPropFail 1)
+                   else check_that (nlist_eqb (rd woff n o) (cfb_dec bs E ivb prevw)) (VPropFail 4)) in
+          let vcorr := check_that (nlist_eqb o (if inplace then mem1 s' else mem2 s')) (VMismatch 14) in
+          vjoin (vjoin vprop vcorr)
+                (bcheck bs E iv s' (if inplace then o else i1) (if inplace then i2 else o) ops' obs' fin1 fin2)
+      end
+  | _, _ => VBad
+  end.
+
+Fixpoint brun (bs : nat) (E : list N -> list N) (iv : list N) (s : bstate) (ops : list sx) : bool :=
+  match ops with
+  | [] => true
+  | SList [SInt k; SInt off; SInt n; SInt _; SInt doff] :: ops' =>
+      let off := Z.to_nat off in let n := Z.to_nat n in let doff := Z.to_nat doff in
+      let bo := if Z.eqb k 0 then BEnc off n else if Z.eqb k 1 then BDec off n
+                else if Z.eqb k 2 then BEncTo off n doff else BDecTo off n doff in
+      match bstep bs E iv s bo with Some s' => brun bs E iv s' ops' | None => false end
+  | _ => false
+  end.
+
+(* factory-made cipher on windows of one buffer, in place; ref = stock CFB of the window's
+   previous content (oracle) *)
+Fixpoint fcheck (i1 : list N) (ops obs : list sx) : verdict :=
+  match ops, obs with
+  | [], [] => VOk
+  | SList [SInt k; SInt off; SInt n; SInt _] :: ops', SList [SBytes o; SBytes ref] :: obs' =>
+      let off := Z.to_nat off in let n := Z.to_nat n in
+      vjoin (vjoin (check_that (outside_eq off n i1 o) (VPropFail 8))
+                   (check_that (nlist_eqb (rd off n o) ref) (if Z.eqb k 0 then VPropFail 1 else VPropFail 2)))
+            (fcheck o ops' obs')
+  | _, _ => VBad
+  end.
+
 Definition check (c : sx) : verdict :=
   match c with
   | SList [SList [SInt 0%Z; SInt bs; SInt mul; SBytes key; SBytes iv; SBytes eb; SBytes db; SList ops];
@@ -254,5 +324,21 @@ Definition check (c : sx) : verdict :=
   | SList [SList [SInt 7%Z; SBytes key; SBytes iv; SList entries; SInt seed; SInt len];
            SList [SList results; SList t]] =>
       check_family key iv (lcg seed len) t entries results
+  | SList [SList [SInt 8%Z; SInt bs; SInt mul; SBytes key; SBytes iv; SBytes eb; SBytes db;
+                   SInt s1; SInt l1; SInt s2; SInt l2; SList ops];
+           SList [SInt panicked; SList obs; SBytes fin1; SBytes fin2]] =>
+      let bs := Z.to_nat bs in
+      let E := toy bs (Z.to_N mul) key in
+      let m1 := lcg s1 l1 in let m2 := lcg s2 l2 in
+      let s0 := mkbs m1 m2 (mkcr eb db) in
+      if Z.eqb panicked 1 then check_that (negb (brun bs E iv s0 ops)) (VMismatch 4)
+      else bcheck bs E iv s0 m1 m2 ops obs fin1 fin2
+  | SList [SList [SInt 9%Z; SBytes _; SBytes _; SBytes _; SInt s1; SInt l1; SList ops];
+           SList [SInt panicked; SList obs]] =>
+      if Z.eqb panicked 1 then VPropFail 7 else fcheck (lcg s1 l1) ops obs
+  | SList [SList [SInt 10%Z; SBytes _; SBytes _; SBytes _; SInt _; SInt _];
+           SList [SInt panicked; SInt be; SInt bd; SList _]] =>
+      if Z.eqb panicked 1 then VPropFail 7
+      else check_that (Z.eqb be 0 && Z.eqb bd 0) (VPropFail 9)
   | _ => VBad
   end.
